@@ -4,7 +4,9 @@ import (
 	"fmt"
 	"net/url"
 	"strings"
+	"sync"
 
+	"github.com/microcosm-cc/bluemonday"
 	"golang.org/x/net/html"
 	"pgregory.net/rapid"
 )
@@ -28,6 +30,7 @@ func genPolicyAndInput(t *rapid.T, so *SpecOpts) *Case {
 		c.Kind = "soup"
 		c.Input = BStr(genSoup(t, m, nil))
 	}
+	c.Ints = []int{drawStage(t, spec)}
 	return c
 }
 
@@ -35,6 +38,57 @@ func sanitizeSpec(spec *Spec, in string) (out string, log *Log) {
 	log = newLog()
 	p := Build(spec, log)
 	return p.Sanitize(in), log
+}
+
+// sanitizeStaged builds the policy in two phases when stage is in [0, len(ops)): the base and
+// the first `stage` ops, then a warm-up Sanitize of the same input (its result is discarded),
+// then the remaining ops. The builder API allows a policy to be extended after it has been
+// used; whatever the first phase computed or cached must not outlive the extension.
+func sanitizeStaged(spec *Spec, in string, stage int) (out string, log *Log) {
+	if stage < 0 || stage >= len(spec.Ops) {
+		return sanitizeSpec(spec, in)
+	}
+	log = newLog()
+	p := Build(&Spec{Base: spec.Base, Ops: spec.Ops[:stage]}, log)
+	p.Sanitize(in)
+	p.SanitizeBytes([]byte(in))
+	*log = *newLog()
+	for _, o := range spec.Ops[stage:] {
+		ApplyOp(p, o, log)
+	}
+	return p.Sanitize(in), log
+}
+
+// stageOf reads the optional stage index from a case (Ints[idx]); -1 = built in one go.
+func stageOf(c *Case, idx int) int {
+	if len(c.Ints) > idx {
+		return c.Ints[idx]
+	}
+	return -1
+}
+
+// drawStage: half of the cases build the policy in one go, the other half extend it after a
+// first use at a random op index.
+func drawStage(t *rapid.T, spec *Spec) int {
+	if len(spec.Ops) == 0 || rapid.Bool().Draw(t, "staged") {
+		return -1
+	}
+	return rapid.IntRange(0, len(spec.Ops)-1).Draw(t, "stage")
+}
+
+var sharedUGC = sync.OnceValue(func() *bluemonday.Policy { return bluemonday.UGCPolicy() })
+
+var interferingInput = []byte(`<b>interfering</b><img src="http://example.com/x.png" alt="a"><script>alert(1)</script><a href="http://example.org/">link</a> &amp; more text to fill a buffer`)
+
+// retainedBytes returns what a caller sees who keeps the []byte of SanitizeBytes while other
+// sanitise calls (same policy, another shipped policy) run afterwards.
+func retainedBytes(spec *Spec, in string) string {
+	p := Build(spec, nil)
+	b := p.SanitizeBytes([]byte(in))
+	p.SanitizeBytes(interferingInput)
+	p.Sanitize(string(interferingInput) + in)
+	sharedUGC().SanitizeBytes(append(append([]byte{}, interferingInput...), in...))
+	return string(b)
 }
 
 func checkElements(m *Model, in, out string, inToks, outToks []tok) error {
@@ -117,10 +171,21 @@ func checkElements(m *Model, in, out string, inToks, outToks []tok) error {
 func checkC01(c *Case, r *Rec) error {
 	m := BuildModel(c.Spec)
 	in := string(c.Input)
-	out, _ := sanitizeSpec(c.Spec, in)
+	out, _ := sanitizeStaged(c.Spec, in, stageOf(c, 0))
 	inToks, outToks := tokenize(in), tokenize(out)
 	if err := checkElements(m, in, out, inToks, outToks); err != nil {
 		return err
+	}
+	// what a caller holds after further calls is still the sanitised output
+	if strings.TrimSpace(in) != "" {
+		if kept := retainedBytes(c.Spec, in); kept != out && stageOf(c, 0) < 0 {
+			if err := checkElements(m, in, kept, inToks, tokenize(kept)); err != nil {
+				return violation(kept, "C01(retained): the []byte returned by SanitizeBytes changed after later calls and now violates the policy: %v", err)
+			}
+		}
+	}
+	if stageOf(c, 0) >= 0 {
+		r.Class("policy_extended_after_first_use")
 	}
 	// classification
 	disallowedIn, keptAllowed := false, false
@@ -355,7 +420,7 @@ func okNoRegexp(m *Model, el, k string) bool {
 func checkC02(c *Case, r *Rec) error {
 	m := BuildModel(c.Spec)
 	in := string(c.Input)
-	out, log := sanitizeSpec(c.Spec, in)
+	out, log := sanitizeStaged(c.Spec, in, stageOf(c, 0))
 	inToks, outToks := tokenize(in), tokenize(out)
 	regexAccepted, err := checkAttributes(m, log, in, out, inToks, outToks, r)
 	if err != nil {
